@@ -68,22 +68,27 @@ def setup_invert(ctype):
     return setup
 
 
+def _eff(v, L):
+    """position addressed by index value v (the function is compiled with wraparound(False) and bounds
+    checks: a negative value is out of bounds, not counted from the end)"""
+    return v
+
+
 def inv_invert(I, env):
-    """loop invariant: out[j] == k iff k < i is the (unique) position with in[k] == j; else -1"""
+    """loop invariant: out[j] == k iff k < i is the (unique) position with in[k] -> j; else -1"""
     i = zint(I.unC(env.lookup("i")))
     out = env.lookup("inverse_index_v").arr
-    inp = I.ghost_inp if hasattr(I, "ghost_inp") else None
     inp = env.lookup("index_v").arr
     L = zint(I.unC(env.lookup("length")))
     j, k = z3.Ints("j!q k!q")
     return z3.And(
         z3.ForAll([k], z3.Implies(z3.And(k >= 0, k < i),
-                                  z3.And(z3.Select(inp, k) >= 0, z3.Select(inp, k) < L,
-                                         z3.Select(out, z3.Select(inp, k)) == k))),
+                                  z3.And(_eff(z3.Select(inp, k), L) >= 0, _eff(z3.Select(inp, k), L) < L,
+                                         z3.Select(out, _eff(z3.Select(inp, k), L)) == k))),
         z3.ForAll([j], z3.Implies(z3.And(j >= 0, j < L),
                                   z3.Or(z3.Select(out, j) == -1,
                                         z3.And(z3.Select(out, j) >= 0, z3.Select(out, j) < i,
-                                               z3.Select(inp, z3.Select(out, j)) == j)))))
+                                               _eff(z3.Select(inp, z3.Select(out, j)), L) == j)))))
 
 
 def ens_invert(I, env):
@@ -92,11 +97,25 @@ def ens_invert(I, env):
     inp, m, L = env.vars["inp"], env.vars["m"], env.vars["L"]
     k = I.ctx.fresh_int("k")
     j = I.ctx.fresh_int("j")
-    return [("inverse_of_input", implies(z3.And(k >= 0, k < m), z3.Select(out, z3.Select(inp, k)) == k)),
+    return [("inverse_of_input", implies(z3.And(k >= 0, k < m), z3.Select(out, _eff(z3.Select(inp, k), L)) == k)),
             ("others_minus_one", implies(z3.And(j >= 0, j < L, z3.Select(out, j) != -1),
                                          z3.And(z3.Select(out, j) >= 0, z3.Select(out, j) < m,
-                                                z3.Select(inp, z3.Select(out, j)) == j))),
+                                                _eff(z3.Select(inp, z3.Select(out, j)), L) == j))),
             ("length", natives.eq(I, res.shape[0], L))]
+
+
+def dup_invert(I, env):
+    """NotImplementedError exactly for inputs that address one position twice"""
+    inp, m, L = env.vars["inp"], env.vars["m"], env.vars["L"]
+    k1, k2 = z3.Ints("k1!d k2!d")
+    return z3.Exists([k1, k2], z3.And(k1 >= 0, k1 < k2, k2 < m, _eff(z3.Select(inp, k1), L) == _eff(z3.Select(inp, k2), L)))
+
+
+def oob_invert(I, env):
+    """IndexError exactly for inputs with a value outside [0, length)"""
+    inp, m, L = env.vars["inp"], env.vars["m"], env.vars["L"]
+    k = z3.Int("k!b")
+    return z3.Exists([k], z3.And(k >= 0, k < m, z3.Or(z3.Select(inp, k) >= L, z3.Select(inp, k) < 0)))
 
 
 CASES = [
@@ -108,7 +127,8 @@ CASES = [
 for _t in ("int32", "uint32", "int64", "uint8"):
     CASES.append(Case(BONDS + "::_invert_index", f"IndexType={_t}", setup=setup_invert(_t),
                       loops={0: {"invariant": [inv_invert]}},
-                      may_raise=("NotImplementedError", "IndexError", "OverflowError"),
+                      raises={"NotImplementedError": dup_invert, "IndexError": oob_invert},
+                      may_raise=("OverflowError",),
                       ensures=[("inverse", ens_invert)]))
 
 MIN_OBLIGATIONS = 10
